@@ -710,6 +710,10 @@ func (p *Parser) parseSubdirectives() map[string]string {
 			} else {
 				subdirs[line] = ""
 			}
+			// a comment after the sub-directive's text belongs to its line
+			if p.current.Type == TokenComment {
+				p.advance()
+			}
 			continue
 		}
 
@@ -732,6 +736,9 @@ func (p *Parser) parseSubdirectives() map[string]string {
 		}
 
 		subdirs[name] = strings.TrimSpace(value.String())
+		if p.current.Type == TokenComment {
+			p.advance()
+		}
 	}
 
 	return subdirs
